@@ -448,6 +448,10 @@ func (ex *Exec) callContract(fr *Frame, instr ssa.CallInstruction, callee *ssa.F
 	fr.callN[short]++
 	n := fr.callN[short]
 	for _, rq := range fc.Requires {
+		if ex.fc != nil && ex.fc.SitesOnly {
+			ex.assumed[fmt.Sprintf("%s: precondition %s of %s is not discharged at the call (only the site clauses of this function are claimed: %s)", ex.fnID, rq.Label, short, ex.fc.SitesOnlyWhy)] = true
+			continue
+		}
 		se := ex.newSpecEnv(fr2, pc, st, st)
 		se.entryPar = true
 		goal, err := se.evalBool(rq.E)
